@@ -5,4 +5,6 @@ EXTENDS Protected
 MCCompForms == { [f |-> "KeyPair::new_locked_keypair",            lens |-> <<32, 32>>],
                  [f |-> "SigningKeyPair::new_locked_keypair",     lens |-> <<32, 64>>],
                  [f |-> "PrecalcSecretKey::precalculate_locked",  lens |-> <<32>>] }
+\* one decoder per number of lock requests
+MCDeserForms == { [f |-> "json seq -> Locked<HeapByteArray<32>>", locks |-> 1], [f |-> "json -> LockedKeyPair", locks |-> 2] }
 =============================================================================
